@@ -158,6 +158,59 @@ def can (r : Room) (k : Key) (e : Ent) (d : Int) (rt : RightType) : Bool :=
 def users (r : Room) : List Key :=
   (r.admins.map (·.key) ++ r.auths.flatMap fun a => a.users.map (·.key) ++ a.userAdmins.map (·.key)).eraseDups
 
+/-- `can_admin_users` of group `gid` (false when the room has no such group) -/
+def canAdminUsers (r : Room) (gid : Id) (k : Key) (d : Int) : Bool :=
+  match r.getAuth gid with
+  | some a => a.canAdminUsers k d
+  | none => false
+
+end Room
+
+/-- one history entry of a room definition, with the list it belongs to -/
+inductive Entry where
+  | admin (u : User)
+  | user (gid : Id) (u : User)
+  | userAdmin (gid : Id) (u : User)
+  | right (gid : Id) (r : Right)
+deriving Repr, DecidableEq
+
+def Entry.date : Entry → Int
+  | .admin u => u.date
+  | .user _ u => u.date
+  | .userAdmin _ u => u.date
+  | .right _ r => r.validFrom
+
+namespace Room
+
+/-- append one entry through the append-only check of its list; `none` when the check refuses it or
+    the group does not exist -/
+def addEntry? (r : Room) : Entry → Option Room
+  | .admin u =>
+    match r.addAdmin u with
+    | .ok r' => some r'
+    | .error _ => none
+  | .user gid u =>
+    match r.getAuth gid with
+    | none => none
+    | some a =>
+      match a.addUser u with
+      | .ok a' => some (r.setAuth a')
+      | .error _ => none
+  | .userAdmin gid u =>
+    match r.getAuth gid with
+    | none => none
+    | some a =>
+      match a.addUserAdmin u with
+      | .ok a' => some (r.setAuth a')
+      | .error _ => none
+  | .right gid x =>
+    match r.getAuth gid with
+    | none => none
+    | some a =>
+      match a.addRight x with
+      | .ok a' => some (r.setAuth a')
+      | .error _ => none
+
 end Room
 
 end Discret.Room
